@@ -417,7 +417,17 @@ func runC06(c *core.Ctx) {
 				} else if ex, isE := rv[0].(*ssa.Extract); isE {
 					call, _ = ex.Tuple.(*ssa.Call)
 				}
-				if call != nil && core.Callee(&call.Call) == g && call.Call.Args[0] == ssa.Value(f.Params[0]) {
+				// the delegate, or the operation the delegate itself is a pure delegation to (Take → Shift instead of Take → Poll)
+				sameOp := func(h *ssa.Function) bool {
+					if h == g {
+						return true
+					}
+					if d.to == "Poll" {
+						return h == q("Shift")
+					}
+					return false
+				}
+				if call != nil && sameOp(core.Callee(&call.Call)) && call.Call.Args[0] == ssa.Value(f.Params[0]) {
 					ok = true
 					for i := 1; i < len(f.Params); i++ {
 						if call.Call.Args[i] != ssa.Value(f.Params[i]) {
@@ -433,15 +443,53 @@ func runC06(c *core.Ctx) {
 	// (a) every Put into the GC pool is preceded, in the same block, by clearing Val, Prev, Next of that node
 	nPut := 0
 	okPut, dPut := true, "every node handed to the GC pool has Val/Prev/Next cleared first"
-	for _, f := range p.Methods(p.Fpgo, c06Q) {
+	// a put site is a call of sync.Pool.Put with a node, or of a wrapper that only forwards its own parameter to Put (a
+	// typed pool); inside such a wrapper the forwarded parameter is the caller's responsibility
+	forwards := map[*ssa.Function]int{} // wrapper → index of the forwarded parameter
+	for _, f := range p.Funcs {
+		if f.Pkg != p.Fpgo {
+			continue
+		}
 		core.Instrs(f, func(ins ssa.Instruction) {
 			call, ok := ins.(*ssa.Call)
 			if !ok || core.StdCallee(&call.Call) != "sync.(Pool).Put" {
 				return
 			}
+			if prm, isP := core.Resolve(core.Unwrap(call.Call.Args[1])).(*ssa.Parameter); isP && len(f.Blocks) == 1 {
+				for i, q2 := range f.Params {
+					if q2 == prm {
+						forwards[f] = i
+					}
+				}
+			}
+		})
+	}
+	for _, f := range p.Funcs {
+		if f.Pkg != p.Fpgo {
+			continue
+		}
+		core.Instrs(f, func(ins ssa.Instruction) {
+			call, ok := ins.(*ssa.Call)
+			if !ok {
+				return
+			}
+			var arg ssa.Value
+			if core.StdCallee(&call.Call) == "sync.(Pool).Put" {
+				if _, isFwd := forwards[f]; isFwd {
+					return
+				}
+				arg = call.Call.Args[1]
+			} else if idx, isFwd := forwards[core.Callee(&call.Call)]; isFwd && idx < len(call.Call.Args) {
+				arg = call.Call.Args[idx]
+			} else {
+				return
+			}
+			node := core.Resolve(core.Unwrap(arg))
+			if !c06isNodePtr(node.Type()) {
+				return
+			}
 			nPut++
 			c.Analysed(core.FuncName(f))
-			node := core.Resolve(core.Unwrap(call.Call.Args[1]))
 			cleared := map[string]bool{}
 			for _, i2 := range call.Block().Instrs {
 				if i2 == ins {
@@ -495,26 +543,53 @@ func runC06(c *core.Ctx) {
 		}()
 		c.Check(ok, "R5", c06Q+".generateNode", p.Pos(gen.Pos()), detail, detail)
 	}
-	// (c) recycleNode: Val ← nil, Prev ← nil, Next ← nodePoolFirst, nodePoolFirst ← node
-	if rec := q("recycleNode"); rec == nil {
-		c.Unknown("R5", c06Q+".recycleNode", "-", "method not found")
-	} else {
-		c.Analysed(core.FuncName(rec))
-		node := ssa.Value(rec.Params[1])
-		val, prev, next, head := false, false, false, false
-		for _, s := range c06stores(rec) {
-			switch {
-			case s.base == node && s.field == c06Node+".Val" && core.IsNilConst(s.st.Val):
-				val = true
-			case s.base == node && s.field == c06Node+".Prev" && core.IsNilConst(s.st.Val):
-				prev = true
-			case s.base == node && s.field == c06Node+".Next" && c06isLoad(s.st.Val, c06Q+".nodePoolFirst", nil):
-				next = true
-			case s.field == c06Q+".nodePoolFirst" && s.st.Val == node:
-				head = true
+	// (c) recycling: wherever a node that comes from the live list becomes the head of the free list - in a recycleNode
+	// helper or written out in Shift/Pop - the node is cleaned (Val ← nil, Prev ← nil) and linked in front of the old free
+	// list (Next ← nodePoolFirst). (Clear moves the whole chain instead and resets every node in a loop.)
+	{
+		origin := c06nodeOrigin(p)
+		nPush := 0
+		for _, f := range p.Methods(p.Fpgo, c06Q) {
+			for _, hs := range c06stores(f) {
+				if hs.field != c06Q+".nodePoolFirst" {
+					continue
+				}
+				node := core.Resolve(hs.st.Val)
+				if o := origin(node, 0, map[ssa.Value]bool{}); o&oLive == 0 {
+					continue // advance of the free list, a fresh node, nil
+				}
+				val, prev, next, anyNext := false, false, false, false
+				inLoop := false
+				for _, s := range c06stores(f) {
+					if s.field == c06Node+".Val" && core.IsNilConst(s.st.Val) && core.InLoop(s.st.Block()) {
+						inLoop = true
+					}
+					if s.base != node {
+						continue
+					}
+					switch {
+					case s.field == c06Node+".Val" && core.IsNilConst(s.st.Val):
+						val = true
+					case s.field == c06Node+".Prev" && core.IsNilConst(s.st.Val):
+						prev = true
+					case s.field == c06Node+".Next":
+						anyNext = true
+						if c06isLoad(s.st.Val, c06Q+".nodePoolFirst", nil) {
+							next = true
+						}
+					}
+				}
+				if !anyNext && inLoop {
+					continue // whole-chain move (Clear): every node is reset in its loop; its ends/count are R3's business
+				}
+				nPush++
+				c.Analysed(core.FuncName(f))
+				c.Check(val && prev && next, "R5", fmt.Sprintf("%s/recycle#%d", core.FuncName(f), nPush), p.InstrPos(hs.st), "Val/Prev cleared, Next relinked to the free list, node becomes the free-list head", fmt.Sprintf("recycling leaves stale state (Val cleared %v, Prev cleared %v, Next → free list %v)", val, prev, next))
 			}
 		}
-		c.Check(val && prev && next && head, "R5", c06Q+".recycleNode", p.Pos(rec.Pos()), "Val/Prev cleared, Next relinked to the free list, node becomes the free-list head", fmt.Sprintf("recycling leaves stale state (Val cleared %v, Prev cleared %v, Next → free list %v, head updated %v)", val, prev, next, head))
+		if nPush == 0 {
+			c.Unknown("R5", c06Q+"/recycle", "-", "no place where a removed node is pushed onto the free list was found")
+		}
 	}
 	c06ownership(c)
 }
@@ -526,16 +601,18 @@ func runC06(c *core.Ctx) {
 func c06ownership(c *core.Ctx) {
 	p := c.P
 	c.Rule("R6", "chain-clearing helpers (walk n = n.Next from a parameter, resetting every visited node) are only handed chains of the free list, never a node of the live list", 2)
-	ms := p.Methods(p.Fpgo, c06Q)
-	// chain clearers: (function, parameter index)
+	// chain clearers: (function, parameter index) - methods of the queue or plain functions of the package
 	type clearer struct {
 		f   *ssa.Function
 		idx int
 	}
 	var clearers []clearer
-	for _, f := range ms {
+	for _, f := range p.Funcs {
+		if f.Pkg != p.Fpgo || f.Parent() != nil {
+			continue
+		}
 		for i, prm := range f.Params {
-			if i == 0 || !c06isNodePtr(prm.Type()) {
+			if i == 0 && f.Signature.Recv() != nil || !c06isNodePtr(prm.Type()) {
 				continue
 			}
 			walks, clears := false, false
@@ -578,73 +655,7 @@ func c06ownership(c *core.Ctx) {
 		}
 		return nil
 	}
-	// origin classes of a node value
-	const (
-		oPool = 1 << iota
-		oLive
-		oFresh
-		oNil
-		oUnknown
-	)
-	var origin func(v ssa.Value, depth int, seen map[ssa.Value]bool) int
-	origin = func(v ssa.Value, depth int, seen map[ssa.Value]bool) int {
-		v = core.Resolve(v)
-		if depth > 12 {
-			return oUnknown
-		}
-		if seen[v] {
-			return 0
-		}
-		seen[v] = true
-		switch x := v.(type) {
-		case *ssa.Const:
-			if x.IsNil() {
-				return oNil
-			}
-		case *ssa.Phi:
-			r := 0
-			for _, e := range x.Edges {
-				r |= origin(e, depth+1, seen)
-			}
-			return r
-		case *ssa.UnOp:
-			if fa, ok := x.X.(*ssa.FieldAddr); ok && x.Op == token.MUL {
-				switch core.FieldKey(fa) {
-				case c06Q + ".nodePoolFirst":
-					return oPool
-				case c06Q + ".first", c06Q + ".last":
-					return oLive
-				case c06Node + ".Next", c06Node + ".Prev":
-					return origin(core.FieldOwner(fa), depth+1, seen)
-				}
-			}
-		case *ssa.TypeAssert:
-			if call, ok := core.Resolve(x.X).(*ssa.Call); ok && core.StdCallee(&call.Call) == "sync.(Pool).Get" {
-				return oFresh
-			}
-		case *ssa.Extract:
-			return origin(x.Tuple, depth+1, seen)
-		case *ssa.Call:
-			if g := core.Callee(&x.Call); g != nil && p.InRepo(g) && len(g.Blocks) > 0 && g.Signature.Results().Len() == 1 {
-				r := 0
-				for _, rcase := range core.ReturnCases(g) {
-					r |= origin(rcase.Vals[0], depth+1, seen)
-				}
-				return r
-			}
-		case *ssa.Parameter:
-			acts := core.ParamActuals(p, x)
-			if len(acts) == 0 {
-				return oUnknown
-			}
-			r := 0
-			for _, a := range acts {
-				r |= origin(a.Arg, depth+1, seen)
-			}
-			return r
-		}
-		return oUnknown
-	}
+	origin := c06nodeOrigin(p)
 	n := 0
 	for _, f := range p.Funcs {
 		if f.Pkg != p.Fpgo {
@@ -711,4 +722,79 @@ func c06produces(p *core.Prog, g, gen *ssa.Function, depth int) bool {
 		}
 	})
 	return ok && n > 0
+}
+
+// origin classes of a node value
+const (
+	oPool = 1 << iota
+	oLive
+	oFresh
+	oNil
+	oUnknown
+)
+
+// c06nodeOrigin returns the origin classifier of node values: the free list (its head, a successor of a free-list node),
+// the live list (first/last or a neighbour of those), a fresh node from the GC pool, nil - traced through phis,
+// parameters (all call sites) and node-returning helpers.
+func c06nodeOrigin(p *core.Prog) func(v ssa.Value, depth int, seen map[ssa.Value]bool) int {
+	var origin func(v ssa.Value, depth int, seen map[ssa.Value]bool) int
+	origin = func(v ssa.Value, depth int, seen map[ssa.Value]bool) int {
+		v = core.Resolve(v)
+		if depth > 12 {
+			return oUnknown
+		}
+		if seen[v] {
+			return 0
+		}
+		seen[v] = true
+		switch x := v.(type) {
+		case *ssa.Const:
+			if x.IsNil() {
+				return oNil
+			}
+		case *ssa.Phi:
+			r := 0
+			for _, e := range x.Edges {
+				r |= origin(e, depth+1, seen)
+			}
+			return r
+		case *ssa.UnOp:
+			if fa, ok := x.X.(*ssa.FieldAddr); ok && x.Op == token.MUL {
+				switch core.FieldKey(fa) {
+				case c06Q + ".nodePoolFirst":
+					return oPool
+				case c06Q + ".first", c06Q + ".last":
+					return oLive
+				case c06Node + ".Next", c06Node + ".Prev":
+					return origin(core.FieldOwner(fa), depth+1, seen)
+				}
+			}
+		case *ssa.TypeAssert:
+			if call, ok := core.Resolve(x.X).(*ssa.Call); ok && core.StdCallee(&call.Call) == "sync.(Pool).Get" {
+				return oFresh
+			}
+		case *ssa.Extract:
+			return origin(x.Tuple, depth+1, seen)
+		case *ssa.Call:
+			if g := core.Callee(&x.Call); g != nil && p.InRepo(g) && len(g.Blocks) > 0 && g.Signature.Results().Len() == 1 {
+				r := 0
+				for _, rcase := range core.ReturnCases(g) {
+					r |= origin(rcase.Vals[0], depth+1, seen)
+				}
+				return r
+			}
+		case *ssa.Parameter:
+			acts := core.ParamActuals(p, x)
+			if len(acts) == 0 {
+				return oUnknown
+			}
+			r := 0
+			for _, a := range acts {
+				r |= origin(a.Arg, depth+1, seen)
+			}
+			return r
+		}
+		return oUnknown
+	}
+	return origin
 }
